@@ -212,6 +212,9 @@ class _BVType(PySMTType):
     method BVType should be used instead.
     """
     def __init__(self, width: int=32):
+        if width < 1:
+            raise PysmtValueError("The width of a bit-vector must be positive, "
+                                  "%s is not" % str(width))
         decl = _TypeDecl("BV{%d}" % width, 0)
         PySMTType.__init__(self, decl=decl, args=None)
         self._width = width
@@ -221,7 +224,7 @@ class _BVType(PySMTType):
         return self._width
 
     def is_bv_type(self, width: Optional[int]=None) -> bool:
-        if width:
+        if width is not None:
             return self.width == width
         return True
 
